@@ -585,9 +585,21 @@ class WOFFDirectoryEntry(DirectoryEntry):
         if self.length == self.origLength:
             data = rawData
         else:
-            assert self.length < self.origLength
-            data = zlib.decompress(rawData)
-            assert len(data) == self.origLength
+            if self.length > self.origLength:
+                raise TTLibError(
+                    "compressed length of '%s' table exceeds its original length"
+                    % self.tag
+                )
+            try:
+                data = zlib.decompress(rawData)
+            except zlib.error as e:
+                raise TTLibError(
+                    "cannot decompress '%s' table: %s" % (self.tag, e)
+                ) from e
+            if len(data) != self.origLength:
+                raise TTLibError(
+                    "unexpected size for decompressed '%s' table" % self.tag
+                )
         return data
 
     def encodeData(self, data):
